@@ -278,6 +278,7 @@ Init ==
             \E arch \in [es -> Archives], slots \in [es -> [Slots -> PreClasses]], parent \in [es -> BOOLEAN],
                cur \in {"same", "other"} :
                /\ \A e \in es : ~parent[e] => \A sl \in Slots : slots[e][sl] = "absent"
+               /\ \E e \in es : arch[e].saved # {}      \* a snapshot without any archive is invalid (Open fails)
                /\ r = RInitState(es, arch, slots, parent, cur)
 
 \* ---- import actions
@@ -293,8 +294,6 @@ ImportCancel   == mode = "import" /\ im.pc = "failed" /\ im' = IEndStream(im, "c
 RestoreBegin == /\ mode = "restore" /\ r.pc = "idle" /\ r.todo # {}
                 /\ \E e \in r.todo, tf \in BOOLEAN : r' = RBeginEntry(r, e, tf)
                 /\ UNCHANGED <<mode, im>>
-RestoreNothing == mode = "restore" /\ r.pc = "idle" /\ r.todo = {} /\ r.cur = "-"
-                  /\ r' = [r EXCEPT !.pc = "restored"] /\ UNCHANGED <<mode, im>>
 RestoreStep  == /\ mode = "restore"
                 /\ r.pc \in {"mkparent", "extract", "verify", "retarget", "aside_common", "in_common", "aside_rev", "in_rev"}
                 /\ r' = RStep(r) /\ UNCHANGED <<mode, im>>
@@ -308,7 +307,7 @@ RestoreCleanupAfter == mode = "restore" /\ r.pc = "restored" /\ r' = [Cleanup(r)
                        /\ UNCHANGED <<mode, im>>
 
 Next == \/ ImportBegin \/ ImportMember \/ ImportEndClean \/ ImportEndCut \/ ImportCancel
-        \/ RestoreBegin \/ RestoreNothing \/ RestoreStep \/ RestoreFault \/ RestoreSettle
+        \/ RestoreBegin \/ RestoreStep \/ RestoreFault \/ RestoreSettle
         \/ RestoreRevertAfter \/ RestoreCleanupAfter
 
 Spec == Init /\ [][Next]_vars
